@@ -166,6 +166,8 @@ def is_facet_inwards(face, faces):
 
     # create a check point by displacing the facet center in facet orientation direction
     eps = 1e-5  # unfortunately this must be quite a 'large' number :(
+    # the displacement is relative to the mesh size (no dependence on the length unit)
+    eps *= np.ptp(faces.reshape((-1, 3)), axis=0).max()
     check_point = face.mean(axis=0) + orient * eps
 
     # find out if first point is inwards
@@ -404,6 +406,12 @@ def get_intersecting_triangles(vertices, triangles, r=None, r_factor=1.5, eps=1e
     if r_factor < 1:  # pragma: no cover
         raise ValueError("r_factor must be greater or equal to 1")
 
+    # eps is an absolute number and single precision is used below: work in
+    # coordinates relative to the mesh size (no dependence on the length unit)
+    size = np.ptp(vertices, axis=0).max()
+    if size > 0:
+        vertices = (vertices - np.min(vertices, axis=0)) / size
+        r = None if r is None else r / size
     vertices = vertices.astype(np.float32)
     facets = vertices[triangles]
     centers = np.mean(facets, axis=1)
@@ -469,6 +477,15 @@ def mask_inside_trimesh(points: np.ndarray, faces: np.ndarray) -> np.ndarray:
     Faces must form a closed mesh for this to work.
     """
     vertices = faces.reshape((-1, 3))
+
+    # all tolerances below are absolute numbers: work in coordinates relative to
+    # the mesh size so that the result does not depend on the length unit
+    origin = np.min(vertices, axis=0)
+    size = np.ptp(vertices, axis=0).max()
+    if size > 0:
+        points = (points - origin) / size
+        faces = (faces - origin) / size
+        vertices = faces.reshape((-1, 3))
 
     # test-points inside of enclosing box
     mask_inside = mask_inside_enclosing_box(points, vertices)
